@@ -276,6 +276,24 @@ def attr_after(traces, sv, name):
     return vals[0] if len(vals) == 1 else None
 
 
+def attr_verdict(traces, sv, name, want):
+    """(verdict, values): True if ``self.<name>`` equals ``want`` at every normal return; False if on some path it is a
+    different, decided value (that path is the witness); None if unset / not interpretable on some path."""
+    vals = []
+    for s, o in traces:
+        if o[0] in ("return", "fall"):
+            v = s.heap.get((id(sv), name))
+            if not any(v is w or (v is not None and v == w) for w in vals):
+                vals.append(v)
+    if not vals:
+        return None, vals
+    if all(v is not None and v == want for v in vals):
+        return True, vals
+    if any(isinstance(v, Lin) and v != want for v in vals):
+        return False, vals
+    return None, vals
+
+
 def match(v, target):
     """True: ``v`` is ``target``; None: ``v`` is some unmodelled function of ``target`` (undecided); False: unrelated."""
     if v is not None and (v is target or v == target):
@@ -317,6 +335,20 @@ def one_return(ctx, rule, construct, traces, loc):
         ctx.undecided(rule, construct, "expected one return value, found %d: %r" % (len(vals), [v for _, v in vals][:3]), loc)
         return None, None
     return vals[0]
+
+
+def result_dtype(ctx, rule, construct, buf, loc):
+    """A buffer that receives *computed* values (features, transformed primitives) must not take its dtype from the input:
+    an integer panel would truncate every non-integral result."""
+    d = getattr(buf, "dtype", None)
+    verdict = True
+    if d is not None:
+        floats = (Opq("name:float"), K("float"), K("float64"), K("f8"), K("double"))
+        is_float = d in floats or (isinstance(d, Opq) and d.tag in ("attr:float", "attr:float64", "attr:float_", "attr:double"))
+        verdict = True if is_float else (False if any(isinstance(x, Src) for x in walk(d)) else None)
+    ctx.check(verdict, rule, construct, "the result array is a float array whatever the type of the input panel",
+              "the result array takes its dtype from the input (%r): for an integer panel every computed value (mean, slope, ...) is "
+              "truncated to an integer when stored" % (d,), loc, witness={"dtype": repr(d)})
 
 
 def cell_state(ctx, construct, it, loc):
@@ -390,10 +422,10 @@ def r1_pad(ctx, repo):
         sv = SelfV(cls)
         sv.attrs.update(pad_length=val)
         traces, fst, k, fn = run_method(repo, it, sv, "fit", {"X": Src("X", "raw")})
-        got = attr_after(traces, sv, "pad_length_")
-        ctx.check(None if got is None or isinstance(got, Opq) else got == want, "R1",
-                  "PaddingTransformer.fit[pad_length=%s]:pad_length_" % scen,
-                  "pad_length_ = %r" % (want,), "pad_length_ is %r, expected %r" % (got, want), ctx.loc(mod, fn))
+        verdict, got = attr_verdict(traces, sv, "pad_length_", want)
+        ctx.check(verdict, "R1", "PaddingTransformer.fit[pad_length=%s]:pad_length_" % scen,
+                  "pad_length_ = %r" % (want,), "pad_length_ is %r on some path (e.g. the option value 0 taken for 'not given'), "
+                  "expected %r on every path" % (got, want), ctx.loc(mod, fn))
     # ---- helper
     fn = repo.func(PADDER, "_get_max_length")
     shp = helper_aggregate(repo, mod, fn)
@@ -517,10 +549,10 @@ def r1_truncate(ctx, repo):
         sv = SelfV(cls)
         sv.attrs.update(lower=val)
         traces, fst, k, fn = run_method(repo, it, sv, "fit", {"X": Src("X", "raw")})
-        got = attr_after(traces, sv, "lower_")
-        ctx.check(None if got is None or isinstance(got, Opq) else got == want, "R1",
-                  "TruncationTransformer.fit[lower=%s]:lower_" % scen, "lower_ = %r" % (want,),
-                  "lower_ is %r, expected %r" % (got, want), ctx.loc(mod, fn))
+        verdict, got = attr_verdict(traces, sv, "lower_", want)
+        ctx.check(verdict, "R1", "TruncationTransformer.fit[lower=%s]:lower_" % scen, "lower_ = %r" % (want,),
+                  "lower_ is %r on some path (e.g. lower=0 -- truncate to range(0, upper) -- taken for 'not given'), expected %r on "
+                  "every path" % (got, want), ctx.loc(mod, fn))
     # the fitted lower_ decides the truncation whatever the raw option was (None = fitted from the data, or given)
     for lscen, lval in (("given", sym("lower")), ("None", K(None))):
       for scen, up, want in (("None", K(None), Rng(ZERO, LO)), ("given", UP, Rng(LO, UP))):
@@ -970,6 +1002,14 @@ def r1_intervals(ctx, repo):
         fs = fit_rets[0][0]
         table = sv.attrs.get("intervals_")
         if tag.endswith("[intervals=int]"):
+            half = it.floor_sym(m.scale(Fraction(1, 2)), State())
+            sl = it.all_facts(fs.facts).slack(sym("intervals") - half)
+            if sl is not None and sl < 0:
+                ctx.violation("R1", tag + ":fit-guard", "the guard on the number of intervals rejects intervals = n_timepoints // 2 "
+                              "(off by %s): a configuration its own message calls valid (`must be half the number of time points`) "
+                              "produces no output" % (-sl,), locf, witness={"intervals": "n_timepoints // 2"})
+            else:
+                ctx.ok("R1", tag + ":fit-guard", "intervals = n_timepoints // 2 is accepted (guard slack %s)" % (sl,), locf)
             pcs = [v for v in walk(table) if isinstance(v, Pieces)] if table is not None else []
             ok = len(pcs) == 1 and pcs[0].base == Rng(ZERO, m) and pcs[0].k == sym("intervals")
             ctx.check(ok if len(pcs) == 1 else None, "R1", tag + ":fit-pieces",
@@ -1138,6 +1178,7 @@ def r1_feature_columns(ctx, repo):
     if isinstance(xb, Buf) and len(xb.shape) == 2:
         nf, ni = Lin.sym("len(%r)" % (floops[0].it,)), Lin.sym("len(%r)" % (iloops[0].it,))
         want_w = it.binop(ast.Mult(), nf, ni, State())
+        result_dtype(ctx, "R1", tag + ":output-dtype", xb, loc)
         ctx.check(xb.shape == [n, want_w], "R1", tag + ":output-shape", "the output has n_instances rows and n_features * n_intervals columns",
                   "the output array has shape %r, expected (n_instances, n_features * n_intervals) = %r" % (xb.shape, [n, want_w]), loc)
     else:
@@ -2151,6 +2192,8 @@ def row_layout(ctx, repo, cname, res):
         for e in it.events:
             if e.kind == "store" and isinstance(e.base, Buf) and innermost_inst(e, cands) is not None and e.base not in bufs:
                 bufs.append(e.base)
+        if len(bufs) == 1:
+            result_dtype(ctx, "R3", "%s.transform:output-dtype" % cname, bufs[0], loc)
         ctx.check(None if len(bufs) != 1 else bufs[0].shape == [n, cc], "R3", "%s.transform:output-shape" % cname,
                   "the output has one row per instance and one value per column",
                   "the output array has shape %r, expected (n_instances, n_columns)" % ([b.shape for b in bufs],), loc)
@@ -2311,6 +2354,6 @@ def run(ctx):
     r2_options(ctx, repo)
     r3_all(ctx, repo)
     r3_history(ctx, repo)
-    ctx.floor("R1", 89)
+    ctx.floor("R1", 91)
     ctx.floor("R2", 134)
-    ctx.floor("R3", 86)
+    ctx.floor("R3", 87)
